@@ -19,11 +19,13 @@ Definition qsid_str (q : qsid) : str :=
   | QDerived n k => [x44; n2b n; n2b k]
   end.
 
-Inductive kspec := KNone | KKey (proto : str) (len : N).
+Inductive kspec := KNone | KKey (proto : str) (len : N)
+  | KKeyG (proto : str) (len : N) (gen : N).   (* the key of the gen-th re-registration of the id (a fresh key) *)
 Definition key_of (ord : N) (k : kspec) : option key_info :=
   match k with
   | KNone => None
   | KKey proto len => Some {| k_data := repeat (n2b ord) (N.to_nat len); k_proto := proto |}
+  | KKeyG proto len g => Some {| k_data := repeat (n2b (ord + 40 * g)) (N.to_nat len); k_proto := proto |}
   end.
 Inductive pspec := PNone | PSome (authd : bool) (user valid : option str)
   | PClient (authd : bool) (user valid : option str).   (* a client-side record (CedarClientSideSession = true) *)
@@ -45,12 +47,18 @@ Inductive yop :=
 | YResumeInv (q : qsid) (want : bool) (cmd : Z) (ok : bool) (rep : reply)
           (authd : bool) (user valid : option str) (encflag resumed keyok : bool)
           (icustom : bool) (iret : bool)   (* Invalidate(q) on that cache landed while the reply was being written *)
+| YServe (q : qsid) (cmd : Z) (opt : bool) (hs : bool) (rep : reply) (served : bool)
+         (authd : bool) (user valid : option str) (encflag resumed keyok : bool)
+    (* the same request (a reply always wanted) accepted by the dispatching server: hs = the requester saw the
+       handshake succeed, served = the command's handler ran (the remaining fields are what it saw) *)
 | YRenew (ord : N) (custom : bool) (found : bool)
 | YTick (dt : Z)
 | YInvalidate (ord : N) (custom : bool) (ret : bool)
 | YSweep (n : Z).
 
-Inductive sobs := SS (ord : N) (custom stored looked expired : bool).
+Inductive sobs := SS (ord : N) (custom stored looked expired : bool)
+  | SK (ord : N) (custom : bool) (owner : N) (k : kspec).
+    (* the key bytes the cache holds for session ord are those of registration (owner, k); owner 0 = of none *)
 Inductive stepobs := St (o : yop) (s : list sobs).
 Inductive case := Case (use_custom : bool) (steps : list stepobs).
 
@@ -98,6 +106,52 @@ Definition resume_step (s : srv) (now : Z) (q : qsid) (want : bool) (cmd : Z) (o
           then Some s' else None
       end.
 
+(* the command table of the harness's dispatching server (vh-c06 newDispatcher) *)
+Definition s_READ : str := [x52; x45; x41; x44].
+Definition s_DAEMON : str := [x44; x41; x45; x4d; x4f; x4e].
+Definition s_ADMINISTRATOR : str := [x41; x44; x4d; x49; x4e; x49; x53; x54; x52; x41; x54; x4f; x52].
+Definition run_dsrv (opt : bool) : dsrv :=
+  {| d_handler := fun c => if (c =? 421) then HAuth [s_READ] else if (c =? 60007) then HAuth [s_DAEMON]
+                           else if (c =? 477) then HAuth [s_ADMINISTRATOR] else if (c =? 60021) then HRaw else HNone;
+     d_auth_required := fun c => c =? 60007;
+     d_enc_required := fun _ => negb opt;
+     d_authorizer := Some (fun perm user => bytes_eqb perm s_READ
+                             || (bytes_eqb perm s_DAEMON && match user with Some (_ :: _) => true | _ => false end)) |}.
+
+Definition serve_step (s : srv) (now : Z) (q : qsid) (cmd : Z) (opt hs : bool) (rep : reply) (served : bool)
+  (a : bool) (u v : option str) (ef rs kok : bool) : option srv :=
+  let '(s', mrep, res, dr) :=
+    serve_conn (run_dsrv opt) s now {| q_sid := qsid_str q; q_want_reply := true; q_command := Some cmd |} 60010 in
+  match res with
+  | SErr => if negb hs && negb served && reply_kind_eqb mrep rep then Some s' else None
+  | SOk n sst =>
+      if hs && reply_kind_eqb mrep rep then
+        match dr with
+        | Some DServed =>
+            if served && Bool.eqb (n_authentication n) a && str_opt_eqb (n_user n) u
+               && str_opt_eqb (n_valid n) v && Bool.eqb (n_encryption n) ef && Bool.eqb (n_resumed n) rs
+               && (n_command n =? cmd)
+               && Bool.eqb kok (match st_key sst, q with
+                                | Some k, QSess ord =>
+                                    match find_sess (sid_of ord) (c_sessions (s_global s) ++ match s_custom s with Some c => c_sessions c | None => [] end) with
+                                    | Some e => match e_key e with Some ki => bytes_eqb k (k_data ki) | None => false end
+                                    | None => false
+                                    end
+                                | _, _ => false
+                                end)
+            then Some s' else None
+        | _ => if negb served then Some s' else None
+        end
+      else None
+  end.
+
+Definition key_info_eqb (a b : option key_info) : bool :=
+  match a, b with
+  | None, None => true
+  | Some x, Some y => bytes_eqb (k_data x) (k_data y) && bytes_eqb (k_proto x) (k_proto y)
+  | _, _ => false
+  end.
+
 Definition step (st : srv * Z) (o : yop) : option (srv * Z) :=
   let '(s, now) := st in
   match o with
@@ -117,6 +171,8 @@ Definition step (st : srv * Z) (o : yop) : option (srv * Z) :=
           if Bool.eqb r iret then Some (set_cache s' icu c', now) else None
       | None => None
       end
+  | YServe q cmd opt hs rep served a u v ef rs kok =>
+      match serve_step s now q cmd opt hs rep served a u v ef rs kok with Some s' => Some (s', now) | None => None end
   | YRenew ord cu found =>
       let c := cache_of s cu in
       match lookup c now (sid_of ord) with
@@ -134,12 +190,21 @@ Definition step (st : srv * Z) (o : yop) : option (srv * Z) :=
 
 Definition snap_ok (st : srv * Z) (l : list sobs) : bool :=
   let '(s, now) := st in
-  forallb (fun x => let '(SS ord cu stored looked expired) := x in
-             let c := cache_of s cu in
-             match find_sess (sid_of ord) (c_sessions c) with
-             | None => negb stored && negb looked
-             | Some e => stored && Bool.eqb (is_expired e now) expired
-                         && Bool.eqb (match lookup c now (sid_of ord) with Some _ => true | None => false end) looked
+  forallb (fun x =>
+             match x with
+             | SS ord cu stored looked expired =>
+                 let c := cache_of s cu in
+                 match find_sess (sid_of ord) (c_sessions c) with
+                 | None => negb stored && negb looked
+                 | Some e => stored && Bool.eqb (is_expired e now) expired
+                             && Bool.eqb (match lookup c now (sid_of ord) with Some _ => true | None => false end) looked
+                 end
+             | SK ord cu owner k =>
+                 (* the key the model's entry carries (the one it was stored with) is the key the cache holds *)
+                 match find_sess (sid_of ord) (c_sessions (cache_of s cu)) with
+                 | None => false
+                 | Some e => key_info_eqb (e_key e) (key_of owner k)
+                 end
              end) l.
 
 Fixpoint run_steps (st : srv * Z) (l : list stepobs) : bool :=
@@ -168,6 +233,7 @@ Definition z4 : Z := 4. Definition z5 : Z := 5. Definition z6 : Z := 6. Definiti
 Definition z8 : Z := 8. Definition z9 : Z := 9.
 Definition z500 : Z := 500. Definition zm500 : Z := -500. Definition zm1500 : Z := -1500.
 Definition zhuge : Z := 1099511627776. Definition z1500 : Z := 1500. Definition z3000 : Z := 3000.
+Definition z477 : Z := 477. Definition z60021 : Z := 60021. Definition z60099 : Z := 60099.
 Definition z2100 : Z := 2100. Definition z950 : Z := 950. Definition z421 : Z := 421. Definition z60007 : Z := 60007.
 
 Fixpoint mism (i : nat) (cs : list case) : list nat :=
